@@ -18,11 +18,25 @@ NOT_APPLICABLE = [
     {"property_id": "C20", "reason": "iptables rule text is a pure function of the capture configuration; " + PURE},
 ]
 # properties planned in DESIGN.md whose check is not built yet (removed from here as they land)
-for _p, _sec in [("C06", "4.6"), ("C11", "4.7"), 
+for _p, _sec in [("C11", "4.7"), 
                  ("C15", "4.9"), ("C16", "4.10"), ("C18", "4.12")]:
     NOT_APPLICABLE.append({"property_id": _p, "reason": "not claimed yet: simulation target (DESIGN.md section %s) whose check is still being built; not a not-applicable verdict" % _sec})
 
 PROPERTIES = {
+    "C06": {
+        "design_ref": "4.6",
+        "technique": "deterministic simulation of the whole control plane with cache-stress settings (tiny LRU, explicit index flush, several proxies differing in one attribute) and yield hooks on the EDS cache miss path; oracle = cache-disabled fresh replica",
+        "level_text": "seeded search over histories x proxy sets (pairwise differing in locality, network, cluster id, version, DNS flags, labels, namespace) x cache sizes x interleavings in which a generator that missed the cache is frozen with its freshly built value while mutations, invalidations, flushes and other proxies' reads run; at checkpoints every held resource must equal what a cache-disabled control plane generates for that proxy; sampling, not proof",
+        "level_note": "trusted: testing/synctest, FakeDiscoveryServer assembly, client model, the two yield hooks in eds.go (no lock held there); CDS/RDS/SDS cache paths are exercised without intra-generation freeze points (transport-level interleavings only)",
+        "rule": "each run = 2-4 proxies drawn from 9 single-attribute variants, cache size in {2, 8, default}, up to 60 steps from {mutate, gap, deliver, flush index, checkpoint, release frozen generator}; distinct = distinct schedule signature; non-trivial = a mutation was applied while a generator was frozen on its cache-miss path",
+        "real": WIS_REAL, "stub": WIS_STUB,
+        "assumptions": ["equality with a cache-disabled instance of the same code: a generator input missing from a key is visible only when two proxies of the run differ in that input"],
+        "subchecks": [
+            {"check": "c06", "what": "cache invisibility vs cache-disabled replica", "nontrivial": "mutation while a generator was frozen between cache miss and Add",
+             "budget": {"quick": 75, "thorough": 900}, "seeds": {"quick": 1, "thorough": 3}, "chunk": 15, "replay_attempts": 3,
+             "must_probe": ["mutation_while_generator_frozen", "frozen_generator_released", "checkpoints"]},
+        ],
+    },
     "C04": {
         "design_ref": "4.4",
         "technique": "deterministic simulation: closed loop between the real per-connection goroutines and a conformant client model (SotW and delta) with an independent obligation model, pushes/requests/NACKs/resubscriptions interleaved by the simulator; separate non-conformant request generator for the crash clause",
